@@ -143,7 +143,7 @@ var sweepItems = func() []sweepItem {
 	var out []sweepItem
 	for _, ct := range ctypes {
 		for _, m := range methodNames(ct) {
-			for _, st := range []string{"empty", "three", "grown"} {
+			for _, st := range []string{"empty", "three", "grown", "full"} {
 				out = append(out, sweepItem{ct.Name, m, st})
 			}
 		}
@@ -168,9 +168,24 @@ func runSweepItem(i uint64) (bool, error) {
 		populate(self, ct, 3)
 	case "grown":
 		populate(self, ct, 200)
+	case "full": // bounded and filled to its bound (eviction paths); types without a bound: three elements
+		populate(self, ct, 3)
+		if sm := self.MethodByName("SetMax"); sm.IsValid() && sm.Type().NumIn() == 1 {
+			sm.Call([]reflect.Value{reflect.ValueOf(3)})
+		} else if sc := self.MethodByName("SetCapacity"); sc.IsValid() {
+			in := make([]reflect.Value, sc.Type().NumIn())
+			for i := range in {
+				in[i] = reflect.ValueOf(3)
+			}
+			sc.Call(in)
+		}
 	}
 	m := self.MethodByName(it.Method)
-	out := guardedCall(func() []reflect.Value { return m.Call(callArgs(m, 1, 5, self, ct)) })
+	k := 1
+	if it.State == "full" {
+		k = 7 // a key that is not present: the call has to make room
+	}
+	out := guardedCall(func() []reflect.Value { return m.Call(callArgs(m, k, 5, self, ct)) })
 	if out.blocked != "" {
 		return true, fmt.Errorf("%s.%s on a structure no other goroutine touches (state %s) never returns: it blocks on the structure's own lock %s", it.Type, it.Method, it.State, out.blocked)
 	}
@@ -190,7 +205,7 @@ func runSweepItem(i uint64) (bool, error) {
 }
 
 var sweepDeadlock = pbt.RegisterSweep(pbt.Sweep{Prop: "C10", Name: "method-self-deadlock",
-	Rule: "exhaustive over (type, exported method, state) for the 17 hash map/set types, the linked list and the two request queues (reflection over the method sets; states empty / 3 elements / 200 elements): the method is invoked with generated arguments in its own goroutine on an instance nobody else touches, followed by a locking probe (Clear); a call found parked on a sync primitive inside golib in three consecutive goroutine-stack samples is a self-deadlock (no wall-clock verdict; a blocking dequeue on an empty queue is not issued); every (type, method, state) is a distinct non-trivial case",
+	Rule: "exhaustive over (type, exported method, state) for the 17 hash map/set types, the linked list and the two request queues (reflection over the method sets; states empty / 3 elements / 200 elements / bounded and full): the method is invoked with generated arguments in its own goroutine on an instance nobody else touches, followed by a locking probe (Clear); a call found parked on a sync primitive inside golib in three consecutive goroutine-stack samples is a self-deadlock (no wall-clock verdict; a blocking dequeue on an empty queue is not issued); every (type, method, state) is a distinct non-trivial case",
 	N:    uint64(len(sweepItems)), Run: runSweepItem,
 	Show: func(i uint64) interface{} { return sweepItems[i] }})
 
@@ -792,6 +807,253 @@ var specStress = pbt.Register(pbt.Spec[StressCase]{
 
 func TestDrainStress(t *testing.T) { specStress.Check(t) }
 
+// ---- 3c. growth stress: concurrent insertions of distinct keys across several table growths -----------------------
+
+type GrowthCase struct {
+	Type      string `json:"type"`
+	Producers int    `json:"producers"`
+	N         int    `json:"n"`       // distinct elements inserted by each producer
+	Readers   int    `json:"readers"` // goroutines looking up keys while the table grows
+}
+
+func growthTypes() []string {
+	var out []string
+	for _, ct := range ctypes {
+		if insertOp(ct) != "" && !strings.Contains(ct.Name, "bounded") {
+			out = append(out, ct.Name)
+		}
+	}
+	return out
+}
+
+func lookupOp(self reflect.Value) reflect.Value {
+	for _, n := range []string{"ContainsKey", "Contains", "HasKey"} {
+		if m := self.MethodByName(n); m.IsValid() && m.Type().NumIn() == 1 && m.Type().NumOut() == 1 && m.Type().Out(0).Kind() == reflect.Bool {
+			return m
+		}
+	}
+	return reflect.Value{}
+}
+
+func runGrowth(c GrowthCase) *pbt.Result {
+	ct := ctypeByName[c.Type]
+	self := reflect.ValueOf(ct.New())
+	ins := self.MethodByName(insertOp(ct))
+	look := lookupOp(self)
+	var wg sync.WaitGroup
+	var gate atomic.Int32
+	var stop atomic.Bool
+	var panics sync.Map
+	for p := 0; p < c.Producers; p++ {
+		wg.Add(1)
+		go func(p int) {
+			defer wg.Done()
+			for gate.Load() == 0 {
+			}
+			for i := 0; i < c.N; i++ {
+				id := 1 + p*c.N + i
+				func() {
+					defer func() {
+						if r := recover(); r != nil {
+							panics.Store(fmt.Sprintf("%s: %v", insertOp(ct), r), true)
+						}
+					}()
+					ins.Call(callArgs(ins, id, id, self, ct))
+				}()
+			}
+		}(p)
+	}
+	var rwg sync.WaitGroup
+	if look.IsValid() {
+		for r := 0; r < c.Readers; r++ {
+			rwg.Add(1)
+			go func(r int) {
+				defer rwg.Done()
+				for gate.Load() == 0 {
+				}
+				for i := 0; !stop.Load(); i++ {
+					func() {
+						defer func() {
+							if rr := recover(); rr != nil {
+								panics.Store(fmt.Sprintf("lookup: %v", rr), true)
+							}
+						}()
+						look.Call(callArgs(look, 1+(i*7+r)%(c.Producers*c.N), 0, self, ct))
+					}()
+				}
+			}(r)
+		}
+	}
+	done := make(chan struct{})
+	go func() { wg.Wait(); stop.Store(true); rwg.Wait(); close(done) }()
+	gate.Store(1)
+	select {
+	case <-done:
+	case <-time.After(180 * time.Second):
+		stop.Store(true)
+		return pbt.Fail("%s: concurrent insertions did not finish within 180 s", c.Type)
+	}
+	var perr []string
+	panics.Range(func(k, v interface{}) bool { perr = append(perr, k.(string)); return true })
+	if len(perr) > 0 {
+		return pbt.Fail("%s: an operation panicked during concurrent insertions: %v", c.Type, perr)
+	}
+	total := c.Producers * c.N
+	if size := int(self.MethodByName("Size").Call(nil)[0].Int()); size != total {
+		return pbt.Fail("%s: %d distinct elements were inserted by %d goroutines, Size() is %d", c.Type, total, c.Producers, size)
+	}
+	if look.IsValid() {
+		for id := 1; id <= total; id++ {
+			if !look.Call(callArgs(look, id, 0, self, ct))[0].Bool() {
+				return pbt.Fail("%s: element %d was inserted (the call returned) but the structure does not contain it after the %d concurrent insertions (lost across a table growth)", c.Type, id, total)
+			}
+		}
+	}
+	if err := structuralAudit(self, ct); err != nil {
+		return pbt.Fail("%s: %v", c.Type, err)
+	}
+	if res := classifyNewRaces(c.Type); res != nil {
+		return res
+	}
+	return &pbt.Result{NT: total > 76 && c.Producers >= 2, Classes: []string{"type=" + c.Type, fmt.Sprintf("producers=%d", c.Producers)}}
+}
+
+var specGrowth = pbt.Register(pbt.Spec[GrowthCase]{
+	Prop: "C10", Name: "growth-stress",
+	Rule:  "2-4 goroutines insert disjoint ranges of fresh keys (40..400 each, so the bucket table grows one to three times while others insert) into one instance while 0-2 reader goroutines look keys up; history invariants sound for any schedule: nothing panics, Size() equals the number of insertions, every inserted key is found afterwards, structural audit; in the -race group every new race-detector report is classified as in race-detector; non-trivial = more than 76 elements from >= 2 producers; distinct by case",
+	Quick: 160, Thorough: 8000,
+	Draw: func(t *rapid.T) GrowthCase {
+		return GrowthCase{Type: rapid.SampledFrom(growthTypes()).Draw(t, "type"), Producers: rapid.IntRange(2, 4).Draw(t, "producers"),
+			N: rapid.IntRange(40, pbt.Pick(200, 400)).Draw(t, "n"), Readers: rapid.IntRange(0, 2).Draw(t, "readers")}
+	},
+	Run: runGrowth,
+})
+
+func TestGrowthStress(t *testing.T) {
+	defer func() {
+		if raceLogPrefix != "" {
+			pbt.Extra("growth-stress", "reports_classified_as_open_finding_F25", raceStats.known)
+		}
+	}()
+	specGrowth.Check(t)
+}
+
+// ---- 3d. bound stress: concurrent insertions into a bounded structure ----------------------------------------------
+
+type BoundCase struct {
+	Type      string `json:"type"`
+	Bound     int    `json:"bound"`
+	Producers int    `json:"producers"`
+	N         int    `json:"n"`      // insertions per producer per round
+	Rounds    int    `json:"rounds"` // fresh instance per round
+}
+
+func boundTypes() []string {
+	var out []string
+	for _, ct := range ctypes {
+		self := reflect.ValueOf(ct.New())
+		if strings.Contains(ct.Name, "bounded") || insertOp(ct) == "" {
+			continue
+		}
+		// a bound that evicts exists on the linked maps/sets (SetMax) and the queues (capacity);
+		// IntIntMap.SetMax only feeds IsFull() and does not bound the plain map
+		if strings.Contains(ct.Name, "Linked") && self.MethodByName("SetMax").IsValid() {
+			out = append(out, ct.Name)
+		} else if self.MethodByName("SetCapacity").IsValid() {
+			out = append(out, ct.Name, ct.Name, ct.Name, ct.Name) // the queues' capacity test has the narrowest window: drawn four times as often
+		}
+	}
+	return out
+}
+
+func runBound(c BoundCase) *pbt.Result {
+	ct := ctypeByName[c.Type]
+	isQueue := ct.Kind == "queue"
+	for round := 0; round < c.Rounds; round++ {
+		self := reflect.ValueOf(ct.New())
+		if sm := self.MethodByName("SetMax"); sm.IsValid() && sm.Type().NumIn() == 1 {
+			sm.Call([]reflect.Value{reflect.ValueOf(c.Bound)})
+		} else if sc := self.MethodByName("SetCapacity"); sc.IsValid() {
+			in := make([]reflect.Value, sc.Type().NumIn())
+			for i := range in {
+				in[i] = reflect.ValueOf(c.Bound)
+			}
+			sc.Call(in)
+		}
+		ins := self.MethodByName(insertOp(ct))
+		var wg sync.WaitGroup
+		var gate atomic.Int32
+		var accepted atomic.Int64
+		var panicked atomic.Value
+		for p := 0; p < c.Producers; p++ {
+			wg.Add(1)
+			go func(p int) {
+				defer wg.Done()
+				defer func() {
+					if r := recover(); r != nil {
+						panicked.Store(fmt.Sprint(r))
+					}
+				}()
+				for gate.Load() == 0 {
+				}
+				for i := 0; i < c.N; i++ {
+					id := 1 + p*c.N + i
+					out := ins.Call(callArgs(ins, id, id, self, ct))
+					if isQueue && len(out) == 1 && out[0].Kind() == reflect.Bool && out[0].Bool() {
+						accepted.Add(1)
+					}
+				}
+			}(p)
+		}
+		gate.Store(1)
+		wg.Wait()
+		if v := panicked.Load(); v != nil {
+			return pbt.Fail("%s (bound %d): an insertion panicked under concurrency: %v", c.Type, c.Bound, v)
+		}
+		total := c.Producers * c.N
+		size := int(self.MethodByName("Size").Call(nil)[0].Int())
+		limit := c.Bound
+		if c.Type == "RequestDoubleQueue" {
+			limit = c.Bound // only queue 1 is used by the insert op
+		}
+		want := total
+		if want > limit {
+			want = limit
+		}
+		if size > limit {
+			return pbt.Fail("%s: bounded to %d, but after %d concurrent insertions from %d goroutines (round %d) it holds %d elements", c.Type, limit, total, c.Producers, round, size)
+		}
+		if size != want {
+			return pbt.Fail("%s: bounded to %d, %d concurrent insertions of distinct elements, Size() = %d (expected %d)", c.Type, limit, total, size, want)
+		}
+		if isQueue {
+			if a := int(accepted.Load()); a != want {
+				return pbt.Fail("%s: capacity %d, no consumer: %d of %d concurrent puts were accepted (returned true), at most %d fit", c.Type, limit, a, total, want)
+			}
+		}
+		if err := structuralAudit(self, ct); err != nil {
+			return pbt.Fail("%s: %v", c.Type, err)
+		}
+	}
+	if res := classifyNewRaces(c.Type); res != nil {
+		return res
+	}
+	return &pbt.Result{NT: c.Producers*c.N > c.Bound, Classes: []string{"type=" + c.Type, fmt.Sprintf("bound=%d", c.Bound)}}
+}
+
+var specBound = pbt.Register(pbt.Spec[BoundCase]{
+	Prop: "C10", Name: "bound-stress",
+	Rule:  "for every type with a bound (SetMax / queue capacity): 500-4000 rounds (quick) in which 2-6 goroutines insert distinct fresh elements into a fresh instance bounded to 1..5 elements (no consumer); invariants sound for any schedule: never more elements than the bound, exactly min(total, bound) at the end, for the queues exactly that many puts accepted, structural audit; non-trivial = more insertions than the bound; distinct by case",
+	Quick: 120, Thorough: 6000,
+	Draw: func(t *rapid.T) BoundCase {
+		return BoundCase{Type: rapid.SampledFrom(boundTypes()).Draw(t, "type"), Bound: rapid.IntRange(1, 5).Draw(t, "bound"), Producers: rapid.IntRange(2, 6).Draw(t, "producers"),
+			N: rapid.IntRange(1, 4).Draw(t, "n"), Rounds: rapid.IntRange(500, pbt.Pick(4000, 10000)).Draw(t, "rounds")}
+	},
+	Run: runBound,
+})
+
+func TestBoundStress(t *testing.T) { specBound.Check(t) }
+
 // ---- 2. race detector ---------------------------------------------------------------------------------------
 
 // The binary of this group is built with -race and started with GORACE=log_path=…; after every case the
@@ -879,16 +1141,9 @@ func runRace(c ConcCase) *pbt.Result {
 	if err := structuralAudit(self, ct); err != nil {
 		return pbt.Fail("%s: %v", c.Type, err)
 	}
-	reports := parseRaces(readRaceLog())
-	fresh := reports[minInt(raceSeen, len(reports)):]
-	raceSeen = len(reports)
 	raceStats.cases++
-	for _, r := range fresh {
-		if knownF25(r) && pbt.KnownOpen("F25") {
-			raceStats.known++
-			continue
-		}
-		return pbt.Fail("%s: the race detector reports unsynchronised access between %v:\n%s", c.Type, r.accesses, trim(r.text, 40))
+	if res := classifyNewRaces(c.Type); res != nil {
+		return res
 	}
 	touch := map[int]map[int]bool{}
 	for g, p := range c.Programs {
@@ -906,6 +1161,24 @@ func runRace(c ConcCase) *pbt.Result {
 		}
 	}
 	return &pbt.Result{NT: shared, Classes: []string{"type=" + c.Type, fmt.Sprintf("goroutines=%d", len(c.Programs))}}
+}
+
+// classifyNewRaces reads the race detector's log (only in the -race group) and judges the reports added since the last call.
+func classifyNewRaces(typ string) *pbt.Result {
+	if raceLogPrefix == "" {
+		return nil
+	}
+	reports := parseRaces(readRaceLog())
+	fresh := reports[minInt(raceSeen, len(reports)):]
+	raceSeen = len(reports)
+	for _, r := range fresh {
+		if knownF25(r) && pbt.KnownOpen("F25") {
+			raceStats.known++
+			continue
+		}
+		return pbt.Fail("%s: the race detector reports unsynchronised access between %v:\n%s", typ, r.accesses, trim(r.text, 40))
+	}
+	return nil
 }
 
 func minInt(a, b int) int {
